@@ -95,7 +95,7 @@ func (p *Program) purityScan() []*VerdictJSON {
 							continue
 						}
 						name := c.String()
-						if _, ok := externWhitelist[name]; !ok {
+						if _, ok := externWhitelist[name]; !ok && !pureExternal(c) {
 							pk := ""
 							if c.Pkg != nil {
 								pk = c.Pkg.Pkg.Path()
